@@ -251,3 +251,4 @@ def multiple_of_unit(kf):
 
 
 UNITS = {'c08_lengths': (['C08'], length_unit), 'c08_multiple_of': (['C08'], multiple_of_unit)}
+SEARCH = {'c08_lengths': ['c08_len'], 'c08_multiple_of': ['c08_num_search_multiple_of']}
